@@ -236,7 +236,8 @@ impl Scheduler for SimScheduler {
         best
       }
       Mode::Starve { favoured } => {
-        let armed = self.shared.borrow().starve_armed;
+        // armed by the scenario, or by the library probe "the writer has queued"
+        let armed = self.shared.borrow().starve_armed || fibre_verif_rt::ctx::probe_count("rwlock_writer_queued_and_parking") > 0;
         let fav: Vec<TaskId> = pool.iter().copied().filter(|t| (favoured >> usize::from(*t)) & 1 == 1).collect();
         if armed && !fav.is_empty() {
           fav[self.rng.below(fav.len() as u64) as usize]
